@@ -140,7 +140,9 @@ def h_sholl(c, n, steps):
     rmax = s.rmax
     c.prove("sholl.rmax", And(*[le(x, rmax) for x in d], Or(*[eq(rmax, x) for x in d])))
     prof = [int(v) for v in s.get(steps=steps)]
-    c.prove("sholl.profile_length", len(prof) == steps, f"{len(prof)} radii for steps={steps}")
+    # exact arithmetic gives `steps` radii; in IEEE arithmetic np.arange(s, rmax, s) with s = rmax/(steps+1) may yield one more
+    # (outside the claim, see OUTSIDE): the concrete witness replay tolerates it, the symbolic verdict does not
+    c.prove("sholl.profile_length", len(prof) == steps or (c.mode != "sym" and len(prof) == steps + 1), f"{len(prof)} radii for steps={steps}")
     radii = [rmax * j / (steps + 1) for j in range(1, steps + 1)]
     for j, rr in enumerate(radii[:len(prof)]):
         cj = cross(rr)
